@@ -37,6 +37,7 @@ C04M = 'Bashlex.Props.C04'
 T_C04 = [('Bashlex.C04.' + t, C04M) for t in ['C04_partial', 'C04_partial_conditional', 'C04_partial_spine', 'C04_prov', 'C04_prov_single', 'C04_leaf_text', 'C04_operator', 'C04_pipe', 'C04_redirect', 'C04_word_span',
          'C04_spine_leaf_text', 'C04_spine_operator', 'C04_spine_pipe', 'value_slice', 'dollar_text', 'Src.slice_eq', 'textOK_origin', 'keepsEol_action', 'parserRun_C04', 'sat_action']]
 reg('C04', 'propchecks.treespec', 'proof', T_C04 + T1, [ASCII, DEPTH, CORR,
+    'WARNING: the hypothesis TokText as stated in Props/C04/TokText.lean is FALSE of the model on rare inputs found after it was validated (a double-quoted word with an escaped backslash directly before a real continuation, e.g. the 7 characters dquote backslash backslash backslash newline newline dquote; the word <() followed by <backslash; states with the regexp/dblparen flags): for those inputs C04_partial says nothing, and as a universally quantified hypothesis it makes C04_partial vacuous until the corrected relation (delB: the value is the text with some backslash-newline pairs deleted) lands; only the theorems that do not take TokText (keepsEol_action, Src.slice_eq, value_slice, dollar_text) are unaffected. Until then C04 is decided per input only. ' +
     'C04_partial is CONDITIONAL on TokText (every delivered token: the text under its span, continuations removed, is its spelling up to four explicit residues = defects D31, D32, D31+D32, NEWLINE over here-document bodies; NOT proved from the '
     'tokenizer; validated by #eval at every build on 1173 corpus strings and 3730 grid strings with all suffixes, strict and non-strict: 0 failures) and on TokSpansAll (= RootEnds, the rest is discharged). Above it: every reserved-word, operator, '
     'pipe, redirect, word and assignment node at any depth is built from delivered tokens (C04_prov); operator/pipe/reserved-word nodes outside words carry exactly their text up to the recorded residues (C04_spine_*); redirects: first/operator/'
